@@ -496,7 +496,7 @@ func runFaults(r *core.Run, prop string) {
 	}
 	ops := make([]core.Op, len(cases))
 	for i, c := range cases {
-		ops[i] = core.Op{ID: i, Kind: "call", Data: c.in.Data, Cut: c.cut, Fault: c.fault, Args: callArgsJSON(c.entry), Trace: prop == "C02"}
+		ops[i] = core.Op{ID: i, Kind: "call", Data: c.in.Data, Cut: c.cut, Fault: c.fault, Args: callArgsJSON(c.entry), Trace: prop == "C02", Count: prop == "C02", NoRes: true}
 	}
 	obs, err := core.RunOps(ops, core.WorkerOpts{Stall: 8 * time.Second, Shards: 14})
 	if err != nil {
